@@ -18,6 +18,7 @@ fn computer(s: u64) -> std::rc::Rc<CgrComputer> {
         if m.len() > 64 {
             m.clear();
         }
+        // the cache keeps up to 64 computers of different square sizes alive side by side
         m.entry(s).or_insert_with(|| std::rc::Rc::new(CgrComputer::new("unused.fa".into(), "unused.out".into(), s as usize))).clone()
     })
 }
